@@ -434,6 +434,10 @@ func c05LoopLeak(r *Run) {
 		`<ul><li v-for="item in items"><template include="row.vuego" PROPS></template></li></ul>`,
 		`<div v-for="(i, item) in items"><p><template include="row.vuego" PROPS></template></p></div>`,
 		`<template v-for="g in groups"><template v-for="item in g"><template include="row.vuego" PROPS></template></template></template>`,
+		// the include is the chosen branch of a condition inside the loop
+		`<ul><li v-for="item in items"><template include="row.vuego" v-if="1 == 1" PROPS></template></li></ul>`,
+		`<div v-for="item in items"><p v-if="1 == 2">no</p><template include="row.vuego" v-else PROPS></template></div>`,
+		`<template v-for="item in items"><p v-if="1 == 2">no</p><template include="row.vuego" v-else-if="item" PROPS></template></template>`,
 	}
 	propSets := []string{`:item="item"`, `:item="item" :label="item.name"`, `:label="item.name" :title="item.name"`, `item="{{ item.name }}" :label="item"`, `:title="item.name"`}
 	for li, loop := range loops {
